@@ -359,6 +359,8 @@ def r09_12(ctx):
 
 
 def run(ctx):
+    from .sweep import r09_13 as _r09_13
+    _r09_13(ctx)
     r09_12(ctx)
     # whether a worker has exited is decided by waitpid alone (borrowed from C19)
     from .c19 import exit_decided_by_waitpid as _edw
